@@ -56,6 +56,7 @@ TOL_IK = 1e-9
 FK_REL = 1e-3            # of the neutral height
 MARGIN = 0.25            # residual/bound above which a passing case is listed as marginal (factor 4 hysteresis)
 G_RIGID = se3.T_from_taa([0.3, -0.7, 0.2, -0.4, 0.2, 0.6])
+G_CEILING = se3.T_from_taa([-0.4, 0.5, 2.5, 2.8, 0.3, -0.2])        # turns the base by ~2.8 rad: its z axis points downwards
 LIST_REL = os.path.join("known_findings", "c09_fk_cases.txt")
 CHAOTIC_ID = "fsolve-zero-rotation-start"
 EXP_CUTOFF = 1e-6        # NearZero() in the library's MatrixExp3
@@ -153,6 +154,8 @@ def eval_ik(P, case, out):
                  np.abs(np.array(s8.getTopJoints(), float) - pg.to_space(G_RIGID @ Tt, P.tl)).max())
     out.append(("pose_objects_moved_in_place", max(float(np.abs(np.array(Lm, float).reshape(6) - want).max()), float(jm)), TOL_IK * 10, None))
     if ok and i % 5 == 2:
+        # (alternately a generic rigid motion and one that hangs the platform from the ceiling: base z axis pointing down)
+        G_MOVE = G_RIGID if i % 10 == 2 else G_CEILING
         # FK with the bottom plate given explicitly somewhere else (the whole platform carried along by one rigid motion):
         # where FK from the platform's own base recovers the pose, FK at the other base recovers the moved pose, and lengths,
         # joints and the bottom pose on record belong to the NEW base
@@ -162,14 +165,14 @@ def eval_ik(P, case, out):
         angA, distA = se3.pose_err(splib.T_of(topA), Tt)
         if max(distA, angA * P.h) <= 1e-4 * P.h:
             sB = P.fresh()
-            B2 = G_RIGID @ P.B
+            B2 = G_MOVE @ P.B
             with splib.quiet():
                 topB, _ = sB.FK(want.copy(), tm(B2.copy()), fk_mode=1)
-            angB, distB = se3.pose_err(splib.T_of(topB), G_RIGID @ Tt)
+            angB, distB = se3.pose_err(splib.T_of(topB), G_MOVE @ Tt)
             dl = float(np.abs(np.array(sB.getLens(), float).reshape(6) - want).max())
             dj = float(np.abs(np.array(sB.getBottomJoints(), float) - pg.to_space(B2, P.bl)).max())
             db = float(np.abs(splib.T_of(sB.getBottomT()) - B2).max())
-            out.append(("fk_at_explicit_base", float(max(distB, angB * P.h, dl, dj, db)) / P.h, 1e-3, None))
+            out.append(("fk_at_explicit_base", float(max(distB, angB * P.h, dl, dj, db)) / P.h, 1e-3, {"ceiling": i % 10 != 2}))
     if ok and P.spin != "s0" and i in RESPIN_AT:
         # forward kinematics used BEFORE the re-spin (anything the solver builds on first use is built for the old tables),
         # then re-spun, then asked for this pose: must answer as the platform that was re-spun before its first FK
